@@ -10,6 +10,27 @@ use crate::model::*;
 
 pub fn run_case(kvs: &[Kv], geom: Geom) -> Result<u64, String> {
     let bytes = front::build(Front::RawInsert, geom, kvs)?;
+    let mut n = check_bytes(&bytes, kvs)?;
+    if kvs.len() <= 6 && crate::ev::hash_kvs(kvs) % 5 == 0 {
+        // the same map from builders kept in use after rejected calls
+        // (duplicates with smaller / larger values, smaller keys)
+        for kind in [0u8, 1] {
+            for mask in [1u8, 31] {
+                match front::noisy_build(kind, if kind == 0 { geom } else { front::DEFAULT_GEOM }, kvs, mask) {
+                    Ok((b, _, None)) if b != bytes => {
+                        n += check_bytes(&b, kvs).map_err(|e| format!("map from a {} kept in use after rejected calls: {}", if kind == 0 { "raw::Builder" } else { "MapBuilder" }, e))?;
+                    }
+                    Ok(_) => {}
+                    Err(e) if front::is_usage_skip(&e) => {}
+                    Err(e) => return Err(e),
+                }
+            }
+        }
+    }
+    Ok(n)
+}
+
+fn check_bytes(bytes: &[u8], kvs: &[Kv]) -> Result<u64, String> {
     guard(|| {
         let f = Fst::new(&bytes[..]).map_err(|e| format!("{:?}", e))?;
         let max = kvs.last().map(|x| x.1).unwrap_or(0);
@@ -115,7 +136,7 @@ fn increasing(n: usize, m: u64, f: &mut dyn FnMut(&[u64])) {
 pub fn plan(tier: Tier) -> Plan {
     let mut p = Plan::new("C16", "model_checking");
     let thorough = tier.thorough();
-    p.rule = "every key set of U_ab3 with <= 5 keys (thorough: <= 7) and of U_abc2 with <= 4 (thorough: <= 6) x EVERY strictly increasing value assignment from {0..n+3} (C(n+4,n) each), plus gapped assignments at pack-width boundaries and with u64::MAX as the largest value; with and without the empty key; queries: every value in 0..=max+2, every stored value +-1, 0, 1, u64::MAX-1, u64::MAX, through get_key and get_key_into (buffer pre-filled with 'xy'; and one arena buffer growing over all queries, starting empty, as large as the file, and at 64 KiB). non-trivial = maps with >= 2 keys".into();
+    p.rule = "every key set of U_ab3 with <= 5 keys (thorough: <= 7) and of U_abc2 with <= 4 (thorough: <= 6) x EVERY strictly increasing value assignment from {0..n+3} (C(n+4,n) each), plus gapped assignments at pack-width boundaries and with u64::MAX as the largest value; with and without the empty key; queries: every value in 0..=max+2, every stored value +-1, 0, 1, u64::MAX-1, u64::MAX, through get_key and get_key_into (buffer pre-filled with 'xy'; and one arena buffer growing over all queries, starting empty, as large as the file, and at 64 KiB); for every fifth map of <= 6 keys also on the FSTs of builders kept in use after rejected calls. non-trivial = maps with >= 2 keys".into();
     p.assumptions = vec!["the buffer content after get_key_into returned false is unspecified and not compared".into()];
     for (u, maxk) in [(u_ab3(), if thorough { 7 } else { 5 }), (u_abc2(), if thorough { 6 } else { 4 })] {
         let mut masks = vec![];
